@@ -8,18 +8,19 @@ hook_commits=[l.split()[0] for l in hooks if l.split(' ',1)[1].startswith('verif
 m={"version":1,
 "setup_cmd":"cd /verif/govc && GOFLAGS=-mod=mod GOPROXY=off GOSUMDB=off GOTOOLCHAIN=local go build -o ../bin/govc ./cmd/govc",
 "hooks":{"guard":"verif","enable":"govc loads /repo with -tags=verif; the tag only adds the comment-only contract files <pkg>/contracts_verif.go (no executable code, no accessors)","baseline_off_cmd":"cd /repo && GOFLAGS=-mod=mod GOPROXY=off GOSUMDB=off go test -vet=off -count=1 ./...","source_commits":hook_commits,"add_only":True},
-"engines":[{"name":"govc","path":"/verif/govc","serves_properties":[c for c in claims if claims[c].get('claimed')],"kind_free_text":"contract-based deductive verifier for Go written for this task: VC generation by symbolic execution of go/ssa (x/tools v0.29.0) of the current /repo tree, contracts as //@ comments in /repo/<pkg>/contracts_verif.go (build tag verif), spec functions from the RFCs in /verif/spec/*.smt2, obligations discharged by z3 5.1.0 / cvc5 1.0.3 (z3 4.8.12 added in thorough runs)"}],
+"engines":[{"name":"govc","path":"/verif/govc","serves_properties":[c for c in claims if claims[c].get('claimed')],"kind_free_text":"contract-based deductive verifier for Go written for this task: VC generation by symbolic execution of go/ssa (x/tools v0.29.0) of the current /repo tree, contracts as //@ comments in /repo/<pkg>/contracts_verif.go (build tag verif), spec functions from the RFCs in /verif/spec/*.smt2, obligations discharged by z3 5.1.0 / cvc5 1.0.3 (z3 4.8.12 added in thorough runs)"},
+{"name":"c20-bounded","path":"/verif/tools/c20_bounded.py","serves_properties":["C20"],"kind_free_text":"BOUNDED stand-in (not a proof) for the key cache, whose map + embedded-sentinel circular list are outside govc's reach: two exhaustive harnesses from /verif/bounded injected into /repo/gotype with go test -overlay (real code, rebuilt from the working tree), plus the govc obligations tagged C20 (symbolCache.init/enabled)"}],
 "checks":[],"not_applicable":[],
 "notes":"see DESIGN.md. Every check: cd /verif && bin/govc check -prop <id> -tier <tier>. A check fails closed: load errors, unsupported constructs in a function under contract, contract errors, vacuous preconditions and missing functions are reported as VIOLATION."}
 for p in props:
     pid=p['id']; c=claims.get(pid,{})
     if c.get('claimed'):
         m['checks'].append({"property_id":pid,
-          "quick_cmd":"cd /verif && bin/govc check -prop %s -tier quick"%pid,
-          "thorough_cmd":"cd /verif && bin/govc check -prop %s -tier thorough"%pid,
+          "quick_cmd":c.get("quick_cmd","cd /verif && bin/govc check -prop %s -tier quick"%pid),
+          "thorough_cmd":c.get("thorough_cmd","cd /verif && bin/govc check -prop %s -tier thorough"%pid),
           "evidence_file":"/verif/evidence/%s.json"%pid,
-          "replay_cmd_template":"cd /verif && bin/govc replay {path}",
-          "engine":"govc",
+          "replay_cmd_template":c.get("replay_cmd_template","cd /verif && bin/govc replay {path}"),
+          "engine":c.get("engine","govc"),
           "level_claimed":{"category":c.get("category","proof"),"text":c['text'],"design_ref":c.get('design_ref','DESIGN.md section 3')},
           "level_note":c['note'],
           "technique":c.get('technique',"contract-based deductive verification: per-function contracts on the real code, VCs generated from go/ssa, discharged by z3/cvc5")})
